@@ -138,7 +138,7 @@ func (s c03Scn) configs(obs *c03Obs) (*dtlsConfig, *dtlsConfig) {
 	}
 	wrongPSK := func([]byte) ([]byte, error) { return []byte{0xAB, 0xC1, 0x24}, nil }
 	signer := func(k crypto.PrivateKey) crypto.Signer { return k.(crypto.Signer) } //nolint:forcetypeassert
-	if s.Honest == "client" { // rogue server
+	if s.Honest == "client" {                                                      // rogue server
 		switch s.Rogue {
 		case "honest":
 		case "wrong_ca":
